@@ -486,6 +486,10 @@ def run(tier):
     import x22_mapping
     if x22_mapping.enabled():
         x22_mapping.run_part(ck, tier)
+    # extension X27: the process start-up door, mpt_init / mpt_client_config (checks/x27_init.py, docs/X27_init.md)
+    import x27_init
+    if x27_init.enabled():
+        x27_init.run_part(ck, tier)
     return ck.finish()
 
 
@@ -498,6 +502,9 @@ def replay(path):
     if det.get("part") == "x22":
         import x22_mapping
         return x22_mapping.replay(det, path)
+    if det.get("part") == "x27":
+        import x27_init
+        return x27_init.replay(det, path)
     beh = det.get("behaviour")
     if not beh:
         print(json.dumps(det, indent=1)[:4000])
